@@ -489,9 +489,25 @@ class DataFrameSchemaBackend(PandasSchemaBackend):
         # series is relatively slow due to copying the index for
         # each one. Coerce dtypes afterwards instead.
         for c in missing_obj.columns:
-            missing_obj[c] = missing_cols_schema[c].dtype.try_coerce(
-                missing_obj[c]
-            )
+            try:
+                missing_obj[c] = missing_cols_schema[c].dtype.try_coerce(
+                    missing_obj[c]
+                )
+            except ParserError as exc:
+                # e.g. a nullable column without default (NaN) declared with
+                # a data type that cannot hold missing values
+                raise SchemaError(
+                    schema=missing_cols_schema[c],
+                    data=obj,
+                    message=(
+                        f"Error while coercing the default value of missing "
+                        f"column '{c}' to type "
+                        f"{missing_cols_schema[c].dtype}: {exc}"
+                    ),
+                    failure_cases=exc.failure_cases,
+                    check=f"coerce_dtype('{missing_cols_schema[c].dtype}')",
+                    reason_code=SchemaErrorReason.DATATYPE_COERCION,
+                ) from exc
 
         return missing_obj
 
